@@ -132,7 +132,16 @@ __probe("attrs.keys", function () { var k = []; for (var n in at) { k[k.length] 
 
 	{Name: "frozen", Src: `
 var fz = Object.freeze({ a: 1, b: { c: 2 } });
-__probe("frozen.state", function () { return [Object.isFrozen(fz), fz.a, fz.b.c].join(); });`},
+var fzLeaf = Object.freeze({ mode: "fast", retries: 3 }), fzArr = Object.freeze([10, 20, 30]);
+var fzOne = Object.freeze({ only: null }), fzDef = Object.preventExtensions(Object.defineProperty({}, "k", { value: -0, enumerable: true }));
+var fzSealedLeaf = Object.seal({ s: "s" }), fzNxLeaf = Object.preventExtensions([1]), fzEmpty = Object.freeze({}), fzEmptyArr = Object.freeze([]);
+var fzHolder = { leaf: fzLeaf, arr: fzArr };
+__probe("frozen.state", function () { return [Object.isFrozen(fz), fz.a, fz.b.c].join(); });
+__probe("frozen.leaves", function () {
+  return [fzLeaf instanceof Object, fzArr instanceof Array, Object.getPrototypeOf(fzLeaf) === Object.prototype, Object.getPrototypeOf(fzArr) === Array.prototype,
+    fzOne instanceof Object, fzDef instanceof Object, fzSealedLeaf instanceof Object, fzNxLeaf instanceof Array, fzEmpty instanceof Object, fzEmptyArr instanceof Array,
+    fzArr.join("-"), Object.keys(fzLeaf).join(), JSON.stringify(fzLeaf), fzHolder.leaf === fzLeaf, typeof fzLeaf.hasOwnProperty, typeof fzArr.push].join();
+});`},
 
 	{Name: "sealed", Src: `
 var sl = Object.seal({ a: 1 });
@@ -516,6 +525,7 @@ var mutations = []mutation{
 	{Name: "attrs.define", Needs: "attrs", Src: `Object.defineProperty(at, "ne", { enumerable: true }); at.nw = 9; delete at.nc; Object.keys(at).join()`},
 	{Name: "attrs.delete", Needs: "attrs", Src: `delete at.nw; delete at.ne; Object.getOwnPropertyNames(at).join()`},
 	{Name: "frozen.write", Needs: "frozen", Src: `fz.a = 2; fz.b.c = 3; fz.n = 1; [fz.a, fz.b.c, fz.n].join()`},
+	{Name: "frozen.inherit", Needs: "frozen", Src: `Object.prototype.fzTag = 1; Array.prototype.fzM = function () { return "m" + this.length; }; delete Object.prototype.hasOwnProperty; [fzLeaf.fzTag, fzArr.fzTag, fzArr.fzM(), fzOne.fzTag, fzDef.fzTag, fzEmpty.fzTag, fzEmptyArr.fzM(), typeof fzLeaf.hasOwnProperty, fzNxLeaf.fzM()].join()`},
 	{Name: "sealed.write", Needs: "sealed", Src: `sl.a = 2; delete sl.a; sl.n = 1; Object.freeze(sl); [sl.a, sl.n].join()`},
 	{Name: "nonext.delete", Needs: "nonext", Src: `delete nx.a; nx.a = 1; nx.b = 2; [nx.a, nx.b].join()`},
 	{Name: "order.readd", Needs: "order", Src: `delete po.b; po.b = 9; po.e = 1; Object.keys(po).join()`},
